@@ -11,10 +11,9 @@ INVS = ["C02_order", "C02_no_gap", "C02_no_overlap", "C03_behind", "C03_recorded
         "C13_quiet_after_stop", "C13_stopped_clean"]
 
 
-def design_cfg(cfg, depth, kf, inv=True):
+def design_cfg(cfg, depth, inv=True):
     defs, consts = consfam.cfg_constants(cfg)
-    lines = ["SPECIFICATION Spec", "CONSTANTS"] + consts + ["  KF_ContinueAfterFailure = %s" % ("TRUE" if kf else "FALSE"),
-                                                             "  MaxDepth = %d" % depth, "CONSTRAINT Bound", "CHECK_DEADLOCK FALSE"]
+    lines = ["SPECIFICATION Spec", "CONSTANTS"] + consts + ["  MaxDepth = %d" % depth, "CONSTRAINT Bound", "CHECK_DEADLOCK FALSE"]
     if inv:
         lines += ["INVARIANT %s" % i for i in INVS]
     return defs, lines
@@ -22,8 +21,7 @@ def design_cfg(cfg, depth, kf, inv=True):
 
 def trace_cfg(cfg):
     defs, consts = consfam.cfg_constants(cfg)
-    return defs, ["SPECIFICATION TSpec", "CONSTANTS"] + consts + ["  KF_ContinueAfterFailure = TRUE", "  MaxDepth = 0",
-                                                                    "CONSTRAINT Report", "CHECK_DEADLOCK FALSE"]
+    return defs, ["SPECIFICATION TSpec", "CONSTANTS"] + consts + ["  MaxDepth = 0", "CONSTRAINT Report", "CHECK_DEADLOCK FALSE"]
 
 
 def _exec(args):
@@ -51,12 +49,12 @@ def run_consumer(chk, prop, tier, seed):
     for ci, cfg in enumerate(configs):
         wd = tlc.workdir("%s-%s-cons-%d" % (prop, tier, ci))
         depth = 8 if thorough else 7
-        defs, lines = design_cfg(cfg, depth, kf=False)
+        defs, lines = design_cfg(cfg, depth)
         res = tlc.model_check(wd, "MC_Consumer", "Consumer", defs, lines, timeout=1500).check()
         chk.add_model("Consumer[%s]" % cfg["name"], res, {k: cfg[k] for k in ("log", "block_n", "auto_t", "group", "max_attempts", "reset", "sync", "max_buf")},
                       "start at every position kind, fetch replies (next 0-3 messages, with a compressed-batch prefix, too small), errors, "
                       "processor completions, manual/auto commits and their outcomes, retry timers, stop and shutdown in every state")
-        gdefs, glines = design_cfg(cfg, 5 if not thorough else 6, kf=True, inv=False)
+        gdefs, glines = design_cfg(cfg, 5 if not thorough else 6, inv=False)
         gres, g = tlc.dump_graph(wd, "MC_graph", "Consumer", gdefs, glines, timeout=1500)
         paths = g.edge_cover(rng, max_len=12)
         cap = 3000 if thorough else 500
@@ -65,7 +63,7 @@ def run_consumer(chk, prop, tier, seed):
             paths = paths[:cap]
         jobs = [("events", cfg, g.events(p)) for p in paths]
         sources = ["TLC edge-cover"] * len(jobs)
-        sdefs, slines = design_cfg(cfg, 40, kf=True, inv=False)
+        sdefs, slines = design_cfg(cfg, 40, inv=False)
         for evs in tlc.simulate(wd, "MC_sim", "Consumer", sdefs, slines, 1500 if thorough else 200, 20, seed + ci, timeout=1500):
             jobs.append(("events", cfg, [e["ev"] for e in evs]))
             sources.append("TLC -simulate")
